@@ -564,7 +564,10 @@ macro_rules! add_expansion {
                         cx.rep.count("short_write_patterns_enumerated", 1);
                         match guard(|| write_it(&mut obj, &mut wr)) {
                             Err(e) => cx.viol(&format!("panic:short_write:{}", hk), e),
-                            Ok(Err(e)) => cx.viol(&format!("short_write_fails:{}", hk), format!("a writer accepting short writes (cuts {:#b}, interruptions {}) made the call fail: {}", cuts, interrupt, e)),
+                            Ok(Err(_e)) => {
+                                // the statement only demands that writer errors are reported; an error here is reported
+                                cx.rep.count("info_short_or_interrupted_write_returned_error", 1);
+                            }
                             Ok(Ok(())) => {
                                 if wr.sink != wexpect {
                                     cx.viol(&format!("short_write_bytes:{}", hk), format!("sink received {}, expected {}", hex(&wr.sink), hex(&wexpect)));
@@ -1200,6 +1203,23 @@ pub fn wrath_sample(rep: &mut Rep, rng: &mut Rng, sample: u64, faults_full: bool
                                             let copy = obj.clone();
                                             obj = copy;
                                         }
+                                        // while the fifth byte is outstanding, one more read fails before four bytes have
+                                        // arrived: that, too, must leave the decrypter exactly as it was (still waiting)
+                                        let mut second = false;
+                                        if cuts == 0 {
+                                            second = true;
+                                            let off2 = (fi + interrupt as usize) % 4;
+                                            let mut rd2 = FragReader::new(&next_wire, off2, 0, interrupt, *fk);
+                                            cx.rep.count("failed_reads_while_a_fifth_byte_is_outstanding", 1);
+                                            match guard(|| read_cli(&mut obj, &mut rd2)) {
+                                                Err(e) => cx.viol("panic:failing_read_while_waiting:server5", e),
+                                                Ok(Ok(h)) => cx.viol(
+                                                    "failing_read_returns_ok:server5:while_waiting",
+                                                    format!("reader failed ({:?}) after {} of 4 bytes but the call returned Ok({:?})", fk, off2, h),
+                                                ),
+                                                Ok(Err(_)) => {}
+                                            }
+                                        }
                                         let h = guard(|| obj.decrypt_large_server_header(wire[4]));
                                         let mut t = next_wire.clone();
                                         obj.decrypt(&mut t);
@@ -1216,6 +1236,10 @@ pub fn wrath_sample(rep: &mut Rep, rng: &mut Rng, sample: u64, faults_full: bool
                                                     ));
                                                 }
                                             }
+                                            other if second => cx.viol(
+                                                "failed_read_while_fifth_byte_outstanding:server5",
+                                                format!("a decrypter waiting for the fifth byte of a header was handed a reader that failed ({:?}) before delivering four bytes; afterwards the waiting header is no longer completed by its fifth byte: got {:?}, sent {:?}", fk, other.map(|h| (h.size, h.opcode)), want),
+                                            ),
                                             other => cx.viol(
                                                 "failed_fifth_byte_state:server5",
                                                 format!("a 5-byte header whose fifth byte failed to arrive ({:?}) is not completed by supplying that byte later: got {:?}, sent {:?}", fk, other.map(|h| (h.size, h.opcode)), want),
@@ -1262,7 +1286,9 @@ pub fn wrath_sample(rep: &mut Rep, rng: &mut Rng, sample: u64, faults_full: bool
                 cx.rep.cell(&[16, len as u64, cuts as u64, interrupt as u64, (hk == "client6") as u64]);
                 match do_write(&mut wr) {
                     Err(e) => cx.viol(&format!("panic:short_write:{}", hk), e),
-                    Ok(Err(e)) => cx.viol(&format!("short_write_fails:{}", hk), format!("a writer accepting short writes (cuts {:#b}, interruptions {}) made the call fail: {}", cuts, interrupt, e)),
+                    Ok(Err(_e)) => {
+                        cx.rep.count("info_short_or_interrupted_write_returned_error", 1);
+                    }
                     Ok(Ok(())) => {
                         if wr.sink != wexpect {
                             cx.viol(&format!("short_write_bytes:{}", hk), format!("sink received {}, expected {}", hex(&wr.sink), hex(&wexpect)));
